@@ -201,6 +201,7 @@ func rulesC18(c *Ctx) {
 	ruleSetterRows(c)
 	ruleEntriesToModifyRequest(c)
 	ruleElectionIDStores(c)
+	ruleCurrentElectionIDWriters(c)
 	ruleModifyVerbs(c)
 }
 
@@ -620,7 +621,8 @@ func ruleModifyVerbs(c *Ctx) {
 			case *ast.AssignStmt:
 				if len(x.Rhs) == 1 {
 					if call, ok := ast.Unparen(x.Rhs[0]).(*ast.CallExpr); ok && calleeObj(info, call) == conv.Obj && len(call.Args) == 2 {
-						if constName(info, call.Args[0]) == t[1] && objOfIdent(info, call.Args[1]) == entries {
+						// (through the parameters of a shared helper that was spliced in: op := spb.AFTOperation_ADD; entries := entries)
+						if constName(info, resolveLocal(info, fi.Decl, call.Args[0])) == t[1] && aliasRootObj(info, fi.Decl, call.Args[1]) == entries {
 							opOK = true
 						}
 						mvar = objOfIdent(info, x.Lhs[0])
@@ -635,4 +637,55 @@ func ruleModifyVerbs(c *Ctx) {
 		})
 		c.check(opOK && qOK, rule, fi.Name, "builds the request with its own operation type and queues it", c.P.pos(fi.Decl.Pos()), t[1], fmt.Sprintf("%s does not convert its entries with %s and queue the result (op ok=%v, queued=%v)", t[0], t[1], opOK, qOK))
 	}
+}
+
+// aliasRootObj follows `x := y` bindings (locals defined once by another identifier, e.g. the parameter
+// bindings of a spliced-in helper) from an identifier to the object it ultimately stands for.
+func aliasRootObj(info *types.Info, fd *ast.FuncDecl, e ast.Expr) types.Object {
+	o := objOfIdent(info, e)
+	for hops := 0; hops < 4 && o != nil; hops++ {
+		v, ok := o.(*types.Var)
+		if !ok || v.IsField() || isParamOf(info, fd, v) {
+			break
+		}
+		def := soleDefinition(info, fd, v)
+		if def == nil {
+			break
+		}
+		o2 := objOfIdent(info, def)
+		if o2 == nil || o2 == o {
+			break
+		}
+		o = o2
+	}
+	return o
+}
+
+// the client's current election id is what the caller last set: written by WithInitialElectionID and
+// UpdateElectionID only (a Start that puts the initial id back stamps every later operation of a restarted
+// client with an id that is no longer the most recently set one)
+func ruleCurrentElectionIDWriters(c *Ctx) {
+	const rule = "CURRENT-ELECTION-ID"
+	fv := c.P.Field("fluent", "GRIBIClient", "currentElectionID")
+	if fv == nil {
+		c.vanished(rule, "fluent.GRIBIClient", "currentElectionID", "field not found")
+		return
+	}
+	c.P.fieldWriteOnce(fv)
+	var bad, writers []string
+	for _, st := range c.P.fieldStores[fv] {
+		c.Sites++
+		d := declaredOf(st.Parent())
+		nm := "?"
+		if d != nil {
+			nm = d.Name()
+		}
+		writers = append(writers, nm)
+		if nm != "WithInitialElectionID" && nm != "UpdateElectionID" {
+			bad = append(bad, nm+" ("+c.P.pos(st.Pos())+")")
+		}
+	}
+	sort.Strings(writers)
+	c.check(len(bad) == 0 && len(writers) >= 2, rule, "fluent.GRIBIClient", "writers of currentElectionID", "-", "stored only by "+strings.Join(writers, ", "),
+		"currentElectionID is also stored by "+strings.Join(bad, ", ")+": operations queued afterwards are stamped with an id the caller did not set last")
 }
